@@ -43,6 +43,7 @@ type cfgDesc struct {
 	MITM     bool     `json:"mitm,omitempty"`     // --mitm: CONNECT is terminated by the proxy, inner requests are routed
 	Attempts int      `json:"dial_attempts"`      // --dial-attempts (Dialer retry); <= 0 means 1
 	FailFirst int     `json:"fail_first_dials"`   // scripted environment: that many socket requests fail first, per request
+	IDNA     bool     `json:"idna_corpus,omitempty"` // corpus marker: exercise IDNA-mapped spellings of special hosts
 }
 
 func (p *pacDesc) script() string {
